@@ -27,11 +27,11 @@ func init() { verbs["C19"] = runC19 }
 var raceOps = []string{"verify", "authorize", "query", "string", "getblockid", "createblock", "append", "seal", "serialize", "revids", "parse", "code"}
 
 type raceShared struct {
-	tok    *biscuit.Biscuit
-	check  biscuit.Check
-	policy biscuit.Policy
-	rule   biscuit.Rule
-	p      parser.Parser
+	tok     *biscuit.Biscuit
+	check   biscuit.Check
+	policy  biscuit.Policy
+	rule    biscuit.Rule
+	p       parser.Parser
 	setFact biscuit.Fact
 }
 
